@@ -122,19 +122,41 @@ def copyTo (m : AMap) (src : Int) (targets : List Int) : AMap :=
   | none => m
   | some _ => copyToLoop m src targets
 
-/-- the same function, with its eleven values computed once (keeps the executable model from re-evaluating chains of
-    closures); `normK f = f` -/
-def normK {α : Type} (f : Kind → α) : Kind → α :=
-  let a0 := f .solution; let a1 := f .pp; let a2 := f .exchange; let a3 := f .surface; let a4 := f .ss
-  let a5 := f .gas; let a6 := f .kinetics; let a7 := f .mix; let a8 := f .reaction; let a9 := f .temperature
-  let a10 := f .pressure
-  fun k => match k with
-    | .solution => a0 | .pp => a1 | .exchange => a2 | .surface => a3 | .ss => a4 | .gas => a5 | .kinetics => a6
-    | .mix => a7 | .reaction => a8 | .temperature => a9 | .pressure => a10
+/-- a total table indexed by `Kind` (a plain record: the executable model keeps no chains of closures) -/
+structure KTab (α : Type) where
+  solution : α
+  pp : α
+  exchange : α
+  surface : α
+  ss : α
+  gas : α
+  kinetics : α
+  mix : α
+  reaction : α
+  temperature : α
+  pressure : α
 
-abbrev Maps := Kind → AMap
+namespace KTab
+def get {α} (t : KTab α) : Kind → α
+  | .solution => t.solution | .pp => t.pp | .exchange => t.exchange | .surface => t.surface | .ss => t.ss
+  | .gas => t.gas | .kinetics => t.kinetics | .mix => t.mix | .reaction => t.reaction
+  | .temperature => t.temperature | .pressure => t.pressure
+def set {α} (t : KTab α) (k : Kind) (a : α) : KTab α :=
+  match k with
+  | .solution => { t with solution := a } | .pp => { t with pp := a } | .exchange => { t with exchange := a }
+  | .surface => { t with surface := a } | .ss => { t with ss := a } | .gas => { t with gas := a }
+  | .kinetics => { t with kinetics := a } | .mix => { t with mix := a } | .reaction => { t with reaction := a }
+  | .temperature => { t with temperature := a } | .pressure => { t with pressure := a }
+def const {α} (a : α) : KTab α := ⟨a, a, a, a, a, a, a, a, a, a, a⟩
+def map {α β} (f : α → β) (t : KTab α) : KTab β :=
+  ⟨f t.solution, f t.pp, f t.exchange, f t.surface, f t.ss, f t.gas, f t.kinetics, f t.mix, f t.reaction,
+   f t.temperature, f t.pressure⟩
+instance {α} : CoeFun (KTab α) (fun _ => Kind → α) := ⟨get⟩
+end KTab
 
-def Maps.set (ms : Maps) (k : Kind) (m : AMap) : Maps := normK fun k' => if k' = k then m else ms k'
+abbrev Maps := KTab AMap
+
+def Maps.set (ms : Maps) (k : Kind) (m : AMap) : Maps := KTab.set ms k m
 
 /-- every way in which the keyword drivers change a map -/
 inductive SOp where
@@ -236,14 +258,14 @@ structure St where
   prov : List (Nat × String)                  -- provenance of tokens (newest first)
   trace : List SOp                            -- every map mutation (newest first)
   -- pending requests: cleared only when executed
-  del : Kind → BinItem
-  copies : Kind → List (Int × Int × Int)
+  del : KTab BinItem
+  copies : KTab (List (Int × Int × Int))
   cells : Option (List Int)
-  mixes : Kind → List (Int × Int × List Int)
+  mixes : KTab (List (Int × Int × List Int))
   -- reset by read_input
-  use : Kind → UseSlot
-  save : Kind → SaveSlot
-  newSet : Kind → List Int
+  use : KTab UseSlot
+  save : KTab SaveSlot
+  newSet : KTab (List Int)
   seenKinetics : Bool
   seenCopy : Bool
   -- run level
@@ -252,9 +274,9 @@ structure St where
   unsignedLoop : Bool
 
 def St.init (unsignedLoop : Bool) : St :=
-  { maps := fun _ => [], next := 0, prov := [], trace := [],
-    del := fun _ => ⟨false, []⟩, copies := fun _ => [], cells := none, mixes := fun _ => [],
-    use := fun _ => ⟨false, -1⟩, save := fun _ => ⟨false, 0, 0⟩, newSet := fun _ => [],
+  { maps := .const [], next := 0, prov := [], trace := [],
+    del := .const ⟨false, []⟩, copies := .const [], cells := none, mixes := .const [],
+    use := .const ⟨false, -1⟩, save := .const ⟨false, 0, 0⟩, newSet := .const [],
     seenKinetics := false, seenCopy := false, stopped := none, simNo := 0, unsignedLoop := unsignedLoop }
 
 /-- the only place where `maps` changes -/
@@ -267,11 +289,11 @@ def St.find (s : St) (k : Kind) (n : Int) : Option Entry := (s.maps k).find n
 def St.fresh (s : St) (p : String) : St × Nat :=
   ({ s with next := s.next + 1, prov := (s.next, p) :: s.prov }, s.next)
 
-def St.setUse (s : St) (k : Kind) (u : UseSlot) : St := { s with use := normK fun k' => if k' = k then u else s.use k' }
-def St.setSave (s : St) (k : Kind) (v : SaveSlot) : St := { s with save := normK fun k' => if k' = k then v else s.save k' }
+def St.setUse (s : St) (k : Kind) (u : UseSlot) : St := { s with use := s.use.set k u }
+def St.setSave (s : St) (k : Kind) (v : SaveSlot) : St := { s with save := s.save.set k v }
 def St.addNew (s : St) (k : Kind) (n : Int) : St :=
-  { s with newSet := normK fun k' => if k' = k then setIns n (s.newSet k') else s.newSet k' }
-def St.setDel (s : St) (k : Kind) (b : BinItem) : St := { s with del := normK fun k' => if k' = k then b else s.del k' }
+  { s with newSet := s.newSet.set k (setIns n (s.newSet k)) }
+def St.setDel (s : St) (k : Kind) (b : BinItem) : St := { s with del := s.del.set k b }
 def St.stop (s : St) (msg : String) : St := if s.stopped.isSome then s else { s with stopped := some msg }
 
 def Kind.name : Kind → String
@@ -321,7 +343,7 @@ def readUse (s : St) (k : Kind) : Option Int → St
   | some n => s.setUse k ⟨decide (0 ≤ n), n⟩
   | none => s.setUse k ⟨false, -2⟩
 
-def allBins (f : BinItem → BinItem) (s : St) : St := { s with del := normK fun k => f (s.del k) }
+def allBins (f : BinItem → BinItem) (s : St) : St := { s with del := s.del.map f }
 
 def readDelete (s : St) (lines : List DelLine) : St :=
   let (s, cell) := lines.foldl (fun (acc : St × BinItem) l =>
@@ -346,16 +368,16 @@ def readBlock (s : St) : Block → St
   | .use k n => readUse s k n
   | .save k n m => s.setSave k ⟨true, n, m⟩
   | .copy (some k) src a b =>
-    { s with copies := normK fun k' => if k' = k then s.copies k' ++ [(src, a, b)] else s.copies k', seenCopy := true }
-  | .copy none src a b => { s with copies := normK fun k' => s.copies k' ++ [(src, a, b)], seenCopy := true }
+    { s with copies := s.copies.set k (s.copies k ++ [(src, a, b)]), seenCopy := true }
+  | .copy none src a b => { s with copies := s.copies.map (· ++ [(src, a, b)]), seenCopy := true }
   | .delete lines => readDelete s lines
   | .runCells toks => { s with cells := some (toks.foldl BinItem.augTok ⟨true, []⟩).nums }
   | .entityMix k n m comps =>
-    { s with mixes := normK fun k' => if k' = k then insMix (n, max m n, comps) (s.mixes k') else s.mixes k' }
+    { s with mixes := s.mixes.set k (insMix (n, max m n, comps) (s.mixes k)) }
 
 /-- `read_input`: per-simulation resets, then the blocks in text order -/
 def readInput (s : St) (blocks : List Block) : St :=
-  let s := { s with use := fun _ => ⟨false, -1⟩, save := fun _ => ⟨false, 0, 0⟩, newSet := fun _ => [],
+  let s := { s with use := .const ⟨false, -1⟩, save := .const ⟨false, 0, 0⟩, newSet := .const [],
                     seenKinetics := false, seenCopy := false }
   blocks.foldl readBlock s
 
@@ -450,7 +472,7 @@ def copyUse (s : St) : St :=
 def saverKinds : List (Kind × Bool) :=
   [(.solution, false), (.pp, true), (.exchange, false), (.surface, true), (.gas, false), (.ss, true)]
 
-def saver (s : St) (save : Kind → SaveSlot) (kinSave : Option Int) : St :=
+def saver (s : St) (save : KTab SaveSlot) (kinSave : Option Int) : St :=
   let s := saverKinds.foldl (fun s (kc : Kind × Bool) =>
     let k := kc.1
     let sv := save k
@@ -466,7 +488,7 @@ def saver (s : St) (save : Kind → SaveSlot) (kinSave : Option Int) : St :=
   | none => s
 
 /-- the store effects of one batch reaction after `use` is settled (copy_use, run, kinetics write-back, saver) -/
-def reactCore (s : St) (save : Kind → SaveSlot) (kinSave : Option Int) : St :=
+def reactCore (s : St) (save : KTab SaveSlot) (kinSave : Option Int) : St :=
   let s := copyUse s
   -- add_mix: every solution of the mixture must exist ("Mix solution not found" → input error → stop in prep)
   let missing : Option Int :=
@@ -536,7 +558,7 @@ def doMixes (s : St) : St :=
       let comps := " ".intercalate (x.2.2.map fun c => tokOf s k c)
       let (s, tok) := s.fresh s!"emix {k.name} {s.simNo} {comps}"
       (s.exec (.put k x.1 (calcEntry tok x.1))).exec (.copies k x.1 x.2.1)) s) s
-  { s with mixes := fun _ => [] }
+  { s with mixes := .const [] }
 
 def copyOrder : List Kind :=
   [.solution, .pp, .reaction, .mix, .exchange, .surface, .temperature, .pressure, .gas, .kinetics, .ss]
@@ -550,7 +572,7 @@ def copyEntities (s : St) : St :=
       match copyTargets s.unsignedLoop r.2.1 r.2.2 with
       | none => if (s.find k r.1).isSome then s.stop s!"runaway {k.name} {r.1} {r.2.1} {r.2.2}" else s
       | some ts => s.exec (.copyTo k r.1 ts)) s) s
-  if s.stopped.isSome then s else { s with copies := fun _ => [] }
+  if s.stopped.isSome then s else { s with copies := .const [] }
 
 def deleteEntities (s : St) : St :=
   if s.stopped.isSome then s else
@@ -560,7 +582,7 @@ def deleteEntities (s : St) : St :=
     if b.defined then
       if b.nums.isEmpty then s.exec (.clear k) else b.nums.foldl (fun s n => s.exec (.erase k n)) s
     else s) s
-  { s with del := fun _ => ⟨false, []⟩ }
+  { s with del := .const ⟨false, []⟩ }
 
 /-- one simulation up to the point where DUMP is written -/
 def simToDump (s : St) (blocks : List Block) : St :=
